@@ -9,6 +9,7 @@ From Interval Require Import Tactic.
 From PyLib Require Import PyVal PyBuiltins Ideal IdealFacts Whnf PyEval Sphere.
 From Spec Require Import AngleSpec.
 From Proofs.C09 Require Import C09_A_defs C09_spec C09_geo.
+From Proofs.C09 Require C09_E_angle C09_E_run C09_E_ecl.
 Import ListNotations.
 Open Scope R_scope.
 
@@ -45,6 +46,20 @@ Definition BETG : R :=
   red360 (red360 (red360 (betG * (180 / PI)) + db1G / 3600) + db2G / 3600).
 (* elongation, degrees *)
 Definition ELONG : R := red360 (elong (BETG * (PI / 180)) (LAMG * (PI / 180)) (slv * (PI / 180)) * (180 / PI)).
+
+(* right ascension / declination (degrees): ecliptical2equatorial(LAMG, BETG, obl), closed form of C05 *)
+Variable oblv : R.
+Definition RAG : R := C09_E_angle.topos (r2d (C09_E_ecl.equ_ra (d2r LAMG) (d2r BETG) (d2r oblv))).
+Definition DECG : R := r2d (C09_E_ecl.equ_dec (d2r LAMG) (d2r BETG) (d2r oblv)).
+(* they are the rotation about the x axis by the obliquity of the unit vector (LAMG, BETG) *)
+Theorem body_radec : -90 < BETG < 90 ->
+  uvec (d2r RAG) (d2r DECG) = Rx (d2r oblv) (uvec (d2r LAMG) (d2r BETG)) /\ 0 <= RAG < 360 /\ -90 <= DECG <= 90.
+Proof.
+  intro H. unfold RAG, DECG. split; [| split].
+  - rewrite C09_E_run.uvec_topos_deg, d2r_r2d. apply C09_E_ecl.equ_formula_rot. now apply C09_E_run.cos_d2r_pos.
+  - apply C09_E_run.topos_r2d_atan2_range.
+  - apply C09_E_run.r2d_atan2_nonneg_range, C09_E_run.abs_sqrt_nonneg.
+Qed.
 
 (* ---- side conditions of the evaluation, from natural hypotheses ---- *)
 Hypothesis Ht : -40 <= tG <= 40.
@@ -118,6 +133,35 @@ Proof.
   intro Hn. destruct fk5_eq as [E1 E2]. rewrite E1, E2. unfold dl1G, db1G.
   rewrite kabL_eq, eccL_eq.
   exact (corrections_small tG lonG (pieL tG) lamG betG lpG (b * (PI / 180)) (nutv * 3600) Ht Hbet Hb Hn).
+Qed.
+
+(* what the body hands to ecliptical2equatorial differs from the geometric (lambda, beta) of the
+   vector, in degrees, by exactly the correction terms bounded in body_corrections_small, up to
+   whole turns (each Angle operation reduces by red360) *)
+Lemma red360_ex x : exists k : Z, red360 x = x + 360 * IZR k.
+Proof. destruct (red360_cong x) as [k Hk]. exists (- k)%Z. rewrite opp_IZR. lra. Qed.
+Lemma pos360_ex x : exists k : Z, pos360 x = x + 360 * IZR k.
+Proof. destruct (pos360_cong x) as [k Hk]. exists k. lra. Qed.
+
+Theorem body_LAMG_BETG :
+  (exists k : Z, LAMG = lamG * (180 / PI) + (dl1G + (Rlit (-9033) (-5) + dl2aG)) / 3600 + nutv + 360 * IZR k) /\
+  (exists k : Z, BETG = betG * (180 / PI) + (db1G + db2G) / 3600 + 360 * IZR k).
+Proof.
+  split.
+  - unfold LAMG, lam0G.
+    destruct (red360_ex (red360 (red360 (pos360 (red360 (lamG * (180 / PI))) + dl1G / 3600) + red360 (Rlit (-9033) (-5) / 3600 + dl2aG / 3600)) + nutv)) as [k1 E1].
+    destruct (red360_ex (red360 (pos360 (red360 (lamG * (180 / PI))) + dl1G / 3600) + red360 (Rlit (-9033) (-5) / 3600 + dl2aG / 3600))) as [k2 E2].
+    destruct (red360_ex (pos360 (red360 (lamG * (180 / PI))) + dl1G / 3600)) as [k3 E3].
+    destruct (red360_ex (Rlit (-9033) (-5) / 3600 + dl2aG / 3600)) as [k4 E4].
+    destruct (pos360_ex (red360 (lamG * (180 / PI)))) as [k5 E5].
+    destruct (red360_ex (lamG * (180 / PI))) as [k6 E6].
+    exists (k1 + k2 + k3 + k4 + k5 + k6)%Z. rewrite !plus_IZR.
+    rewrite E1, E2, E3, E4, E5, E6. lra.
+  - unfold BETG.
+    destruct (red360_ex (red360 (red360 (betG * (180 / PI)) + db1G / 3600) + db2G / 3600)) as [k1 E1].
+    destruct (red360_ex (red360 (betG * (180 / PI)) + db1G / 3600)) as [k2 E2].
+    destruct (red360_ex (betG * (180 / PI))) as [k3 E3].
+    exists (k1 + k2 + k3)%Z. rewrite !plus_IZR. rewrite E1, E2, E3. lra.
 Qed.
 
 (* the elongation the body returns: in [0,180] degrees, cosine = cos B cos(L - Lsun) *)
